@@ -135,7 +135,7 @@ func cmdCheck(args []string) int {
 				cmd := exec.Command(self, "worker", "--prop", profile, "--tier", *tier, "--seed", fmt.Sprint(seed),
 					"--from", fmt.Sprint(k), "--to", fmt.Sprint(share), "--stride", fmt.Sprint(nw), "--out", out,
 					"--deadline", fmt.Sprint(deadline), "--hang-budget", fmt.Sprint(budget))
-				cmd.Env = append(os.Environ(), "VERIF_DIR="+verifDir(), "GOMAXPROCS=2")
+				cmd.Env = append(os.Environ(), "VERIF_DIR="+verifDir(), "GOMAXPROCS=2", "GFSIM_C08_LOGDIR="+tmp)
 				cmd.Stderr = os.Stderr
 				err := cmd.Run()
 				if err != nil {
@@ -197,6 +197,13 @@ func cmdCheck(args []string) int {
 	violations := 0
 	var notes []string
 
+	if baseProp(*prop) == "C08" {
+		for _, c := range c08CrossProcess(self, tmp, *tier, seed, merged) {
+			c.Special, _ = json.Marshal(map[string]int{"stride": nw, "from": c.RunIndex % nw})
+			cands = append(cands, cand{c, "C08"})
+		}
+	}
+
 	if failedWorkers > 0 {
 		notes = append(notes, fmt.Sprintf("%d worker processes failed", failedWorkers))
 		exit = 2
@@ -242,12 +249,35 @@ func cmdCheck(args []string) int {
 		}
 		seenFP[c.Fingerprint] = true
 		fmt.Printf("candidate violation at run %d (seed %d): %s — minimising\n", c.RunIndex, c.Seed, c.Fingerprint)
-		vals, replays := minimise(c.profile, c.Variant, c.Seed, c.Fingerprint, c.Tape, 400, 90*time.Second)
-		r := world.RunOne(c.profile, c.Seed, c.Variant, vals)
 		var hit *world.Violation
-		for i := range r.Violations {
-			if r.Violations[i].Prop == c.Prop && r.Violations[i].Fingerprint == c.Fingerprint {
-				hit = &r.Violations[i]
+		var r *world.RunResult
+		replays := 0
+		if c.Tape == nil {
+			// not tape-minimisable (process-level finding): the replay file carries the history
+			hit = &world.Violation{Prop: c.Prop, Oracle: c.Oracle, Fingerprint: c.Fingerprint, Msg: c.Msg}
+			r = &world.RunResult{}
+		} else {
+			var custom func(vals []uint64) (bool, *world.RunResult)
+			if mk := specialFails[c.profile]; mk != nil {
+				custom = mk(c.Candidate)
+			}
+			var vals []uint64
+			vals, replays = minimise(c.profile, c.Variant, c.Seed, c.Fingerprint, c.Tape, 1500, 40*time.Second, custom)
+			if custom != nil {
+				var ok bool
+				for try := 0; try < 3 && !ok; try++ {
+					ok, r = custom(vals)
+				}
+				if ok {
+					hit = &world.Violation{Prop: c.Prop, Oracle: c.Oracle, Fingerprint: c.Fingerprint, Msg: c.Msg}
+				}
+			} else {
+				r = world.RunOne(c.profile, c.Seed, c.Variant, vals)
+				for i := range r.Violations {
+					if r.Violations[i].Prop == c.Prop && r.Violations[i].Fingerprint == c.Fingerprint {
+						hit = &r.Violations[i]
+					}
+				}
 			}
 		}
 		if hit == nil {
@@ -263,7 +293,10 @@ func cmdCheck(args []string) int {
 			continue
 		}
 		rf := &ReplayFile{Property: hit.Prop, Check: c.profile, Oracle: hit.Oracle, Fingerprint: hit.Fingerprint, Message: hit.Msg, Seed: c.Seed, Variant: c.Variant,
-			Tape: r.Tape, Labels: r.Labels, LogDigest: r.LogDigest, Trace: r.Describe(0), FoundAtRun: c.RunIndex, BaseSeed: seed, Tier: *tier, OrigTapeLen: len(c.Tape), Replays: replays}
+			Tape: r.Tape, Labels: r.Labels, LogDigest: r.LogDigest, Trace: r.Describe(0), FoundAtRun: c.RunIndex, BaseSeed: seed, Tier: *tier, OrigTapeLen: len(c.Tape), Replays: replays, Special: c.Special}
+		if specialFails[c.profile] != nil {
+			rf.LogDigest = "" // the outputs differ between executions by the nature of the finding
+		}
 		path := writeReplay(rf)
 		// fresh-process replay must reproduce it exactly
 		cmd := exec.Command(self, "replay", "--quiet", path)
@@ -318,10 +351,6 @@ func clipS(s string, n int) string {
 
 // checkProfiles lists the world configurations a property check runs.
 func checkProfiles(prop string) []string {
-	switch prop {
-	case "C02":
-		return []string{"C02", "C02x"}
-	}
 	return []string{prop}
 }
 
@@ -394,3 +423,7 @@ func cmdReplay(args []string) int {
 }
 
 var specialReplays = map[string]func(rf *ReplayFile, path string, quiet bool) int{}
+
+// specialFails builds the "does this tape still fail the same way" predicate for checks
+// whose verdict is not a violation recorded inside a single world run.
+var specialFails = map[string]func(c Candidate) func(vals []uint64) (bool, *world.RunResult){}
